@@ -93,6 +93,80 @@ example : (srun (initSys demo3) demo3Ops).nodes.map (fun nd => (nd.sent.map (·.
      ([0], [⟨0, 8, none⟩], [some [1, 2, 3, 4]]),
      ([0], [⟨0, 9, some [1, 2]⟩], [none])] := by decide +kernel
 
+/-- **On the platform the timing builder creates, every access is forwarded exactly once, to the
+owning GPU, and never again.** For `n` nodes with one bank of `bank` bytes each (`platform` = `nodeCfg i` for
+`i < n`: the shared `BankedAddressPortMapper` of `createRDMAAddressMapper`, node `i`'s L1 mapper keeping
+`[i·bank, (i+1)·bank)` local), every schedule, every node `b`:
+* every clone `b` sends out goes to node `addr / bank` — the owner `C18.bank bank addr` of `owner_routing`,
+  the only node for which `isLocal` holds;
+* every clone `b` forwards to its own L2 side has its address in `b`'s local range, and the local mapper sends
+  it to one of `b`'s banks (`addr / isz % k`), never to `ModuleForOtherAddresses` — on the real platform that is
+  the engine's own inside port, i.e. a second forward. So no request bounces between engines. -/
+theorem sys_forwarded_once_to_owner (cap w1 w2 w3 w4 bank n isz k : Nat) (hisz : 0 < isz) (hk : 0 < k)
+    (ops : List SOp) (b : Nat) (B : Node)
+    (hB : (srun (initSys (platform cap w1 w2 w3 w4 bank n isz k)) ops).nodes[b]? = some B) :
+    (∀ φ ∈ B.s.io.fwd, φ.out.dst = C18.bank bank (addrOf φ.orig.pl) ∧ φ.out.dst < n ∧
+      ∀ g, isLocal bank g (addrOf φ.orig.pl) = true ↔ g = φ.out.dst) ∧
+    (∀ φ ∈ B.s.oi.fwd, b * bank ≤ addrOf φ.orig.pl ∧ addrOf φ.orig.pl < (b + 1) * bank ∧
+      isLocal bank b (addrOf φ.orig.pl) = true ∧ φ.out.dst = addrOf φ.orig.pl / isz % k) := by
+  have h := allInv_run (platform cap w1 w2 w3 w4 bank n isz k) ops _ (allInv_init _)
+  have hr := sroute_run (routeOut (nodeCfg cap w1 w2 w3 w4 bank n isz k 0)) _ ops
+    (sroute_init _ _ (platform_route cap w1 w2 w3 w4 bank n isz k))
+  obtain ⟨hcfg, hreach⟩ := h.reach b B hB
+  obtain ⟨_, hBcfg⟩ := platform_getElem? hcfg
+  have hBc := reach_inv hreach
+  have hBh := h.hist.node b B hB
+  constructor
+  · intro φ hφ
+    have hf := (hBc.1.faithful φ hφ).2
+    rw [hr.cfg b B hB] at hf
+    obtain ⟨h1, h2, h3, _, _⟩ := platform_local hisz hk hf
+    have hlt : φ.out.dst < n := by
+      simp only [routeOut, nodeCfg] at hf
+      by_cases hb0 : bank = 0
+      · simp only [hb0, if_true] at hf; cases hf
+      · by_cases hlt : addrOf φ.orig.pl / bank < n
+        · simp only [hb0, hlt, if_true, if_false, Option.some.injEq] at hf; omega
+        · simp only [hb0, hlt, if_false] at hf; cases hf
+    refine ⟨h1, hlt, fun g => ?_⟩
+    simp only [isLocal, Bool.and_eq_true, decide_eq_true_eq]
+    have hpos : 0 < bank := by
+      rcases Nat.eq_zero_or_pos bank with h0 | h0
+      · subst h0; omega
+      · exact h0
+    constructor
+    · intro ⟨g1, g2⟩
+      have e1 : addrOf φ.orig.pl / bank = g := Nat.div_eq_of_lt_le g1 (by rw [Nat.add_mul, Nat.one_mul]; exact g2)
+      rw [h1, e1]
+    · intro hg
+      subst hg
+      rw [Nat.add_mul, Nat.one_mul] at h3
+      exact ⟨h2, h3⟩
+  · intro φ hφ
+    have hfa := hBc.2.faithful φ hφ
+    -- the request is a delivery of a clone addressed to b
+    have h5 : φ.orig ∈ B.namesAll.map nameReq := by
+      have := hBh.names φ.orig
+      have hpz : 0 < (B.s.oi.fwd.map (·.orig)).count φ.orig := count_pos_of_mem (List.mem_map.mpr ⟨φ, hφ, rfl⟩)
+      exact mem_of_count_pos (by omega)
+    obtain ⟨nm, hnm, hnme⟩ := List.mem_map.mp h5
+    have hpl : nm.c.pl = φ.orig.pl := by rw [← hnme]; rfl
+    have hrt := hr.all b B hB nm hnm
+    rw [hBh.allDst nm hnm, hpl] at hrt
+    obtain ⟨_, h2, h3, h4, h5'⟩ := platform_local hisz hk hrt
+    refine ⟨h2, h3, h4, ?_⟩
+    have := hfa.2
+    rw [hBcfg, h5'] at this
+    simp only [Option.some.injEq] at this
+    exact this.symm
+
+/-- in the 3-GPU ring run every node forwarded its request to the next node's bank and the clone it
+    received to its local module 0 (addresses 0x10, 0x1010, 0x2020 with 64-byte interleaving over 2 banks) -/
+example : demo3 = platform 2 1 1 1 1 0x1000 3 0x40 2 ∧
+    (srun (initSys demo3) demo3Ops).nodes.map (fun B => (B.s.io.fwd.map (·.out.dst), B.s.oi.fwd.map (·.out.dst))) =
+      [([1], [0]), ([2], [0]), ([0], [0])] := by
+  exact ⟨rfl, by decide +kernel⟩
+
 /-! ## no panic in a closed, well-formed system -/
 
 /-- **No channel of any engine ever panics** (`badtype`, `bounds`, `notfound`) when every request the
